@@ -29,12 +29,27 @@ Definition new_leak (c : cfg) (st : astate) (dst : nat) (bk : bkind) : list N :=
   | BStackN n size => if stackn_fits n (c_sz c) size then slot_xs (get_a dst st) else []
   | _ => slot_xs (get_a dst st)
   end.
+(** what a forgotten handle hides: the element and the tail behind it - after whatever was done through the
+    handle before *)
+Fixpoint sink_leak (c : cfg) (nx : N) (xs : list N) (i : nat) (sk : sink) : list N :=
+  match sk with
+  | KForget => skipn i xs
+  | KMut sk' => sink_leak c (nx + 1) (sp_upd i (tok c nx) xs) i sk'
+  | KLazyDown n sk' => sink_leak c (nx + n) xs i sk'
+  | _ => []
+  end.
 Definition leak_of (c : cfg) (st : astate) (nx : N) (o : op) : list N :=
   match o with
-  | OPop _ v KForget =>
-      match get_a v st with Some a => skipn (length (a_xs a) - 1) (a_xs a) | None => [] end
-  | ORemove _ v idx KForget | OSwapRemove _ v idx KForget =>
-      match get_a v st with Some a => skipn (N.to_nat idx) (a_xs a) | None => [] end
+  | OPop _ v k =>
+      match get_a v st with
+      | Some a => if (length (a_xs a) =? 0)%nat then [] else sink_leak c nx (a_xs a) (length (a_xs a) - 1) k
+      | None => []
+      end
+  | ORemove _ v idx k | OSwapRemove _ v idx k =>
+      match get_a v st with
+      | Some a => if idx <? N.of_nat (length (a_xs a)) then sink_leak c nx (a_xs a) (N.to_nat idx) k else []
+      | None => []
+      end
   | ODrain _ v sb eb pat FinForget =>
       (* a leaked drain: the not yet yielded part of the range and the tail behind it *)
       match get_a v st with
@@ -296,40 +311,94 @@ Proof.
     perm_count.
 Qed.
 
+Lemma drops_app a b : drops (a ++ b) = drops a ++ drops b.
+Proof. unfold drops. apply flat_map_app. Qed.
+Lemma drops_lazy t ids : drops (flat_map (fun id => EClone t id :: drop_ev c id) ids) = ids.
+Proof.
+  induction ids as [|x l IH]; [reflexivity|]. cbn [flat_map]. unfold drops in *. cbn [flat_map app].
+  rewrite flat_map_app, IH. unfold drop_ev. rewrite Hdg. reflexivity.
+Qed.
+Lemma sp_upd_perm' (xs : list N) i t : (i < length xs)%nat -> Permutation (nth i xs 0 :: sp_upd i t xs) (t :: xs).
+Proof.
+  intros Hi. unfold sp_upd.
+  pose proof (firstn_skipn i xs) as E. rewrite (skipn_nth_cons 0 xs i Hi) in E.
+  apply perm_cnt. intros x. apply (f_equal (cnt x)) in E.
+  rewrite cnt_app, cnt_cons in E. rewrite !cnt_cons, cnt_app, cnt_cons. lia.
+Qed.
+Lemma sp_upd_len (xs : list N) i t : (i < length xs)%nat -> length (sp_upd i t xs) = length xs.
+Proof.
+  intros Hi. unfold sp_upd. rewrite app_length. cbn [length]. rewrite firstn_length, skipn_length. lia.
+Qed.
+
+Lemma sink_own : forall sk st nx v a k i r D L,
+  get_a v st = Some a -> (i < length (a_xs a))%nat -> (k = TPop -> i = (length (a_xs a) - 1)%nat) -> 1 <= nx ->
+  sp_sink c st nx v a k i sk = Some r ->
+  Permutation (created c nx) (vis st ++ D ++ L) ->
+  Permutation (created c (s_nx r))
+    (vis (s_st r) ++ (D ++ drops (s_evs r)) ++ (L ++ sink_leak c nx (a_xs a) i sk)).
+Proof.
+  induction sk as [| |d|d j| |sk' IH|n0 d0 sk' IH|n0 sk' IH|]; intros st nx v a k i r D L Hg Hi Hp Hnx Hr Hinv;
+    cbn [sp_sink] in Hr;
+    try (exact (take_elem_own st nx v a k i _ r D L Hg Hi Hp Hr Hinv)).
+  - (* KMut *)
+    cbv zeta in Hr. cbn [sink_leak].
+    set (xs := a_xs a) in *. set (t := nth i xs 0) in *. set (n := tok c nx) in *.
+    set (a' := with_xs a (sp_upd i n xs)) in *. set (st' := set_a v (Some a') st) in *.
+    destruct (sp_sink c st' (nx + 1) v a' k i sk') as [r'|] eqn:Er'; [|discriminate]. injection Hr as <-.
+    cbn [s_nx s_st s_evs].
+    assert (Hinv' : Permutation (created c (nx + 1)) (vis st' ++ (D ++ [t]) ++ L)).
+    { rewrite (created_succ c nx Hnx).
+      pose proof (vis_get_any st v) as Hv. rewrite Hg in Hv. cbn [slot_xs] in Hv. fold xs in Hv.
+      pose proof (vis_set_any st v (Some a')) as H1. fold st' in H1. unfold a' in H1. cbn [slot_xs with_xs a_xs] in H1.
+      pose proof (sp_upd_perm' xs i n Hi) as H2. fold t in H2. fold n. perm_count. }
+    assert (Hg' : get_a v st' = Some a').
+    { unfold st', get_a, set_a. clear. revert st. induction v as [|v IHv]; intros st; destruct st; cbn [set_nth nth_error]; auto. }
+    assert (Hi' : (i < length (a_xs a'))%nat) by (cbn [a' with_xs a_xs]; rewrite sp_upd_len by exact Hi; exact Hi).
+    assert (Hp' : k = TPop -> i = (length (a_xs a') - 1)%nat) by (cbn [a' with_xs a_xs]; rewrite sp_upd_len by exact Hi; exact Hp).
+    pose proof (IH st' (nx + 1) v a' k i r' (D ++ [t]) L Hg' Hi' Hp' ltac:(lia) Er' Hinv') as H.
+    cbn [a' with_xs a_xs] in H. rewrite drops_app. rewrite (drops_drop_ev c t Hdg). perm_count.
+  - (* KLazyDown *)
+    cbv zeta in Hr. cbn [sink_leak].
+    set (ids := next_ids c nx (N.to_nat n0)) in *.
+    destruct (sp_sink c st (nx + n0) v a k i sk') as [r'|] eqn:Er'; [|discriminate]. injection Hr as <-.
+    cbn [s_nx s_st s_evs].
+    assert (Hinv' : Permutation (created c (nx + n0)) (vis st ++ (D ++ ids) ++ L)).
+    { replace (nx + n0) with (nx + N.of_nat (N.to_nat n0)) by lia. rewrite (created_add c nx _ Hnx). fold ids. perm_count. }
+    pose proof (IH st (nx + n0) v a k i r' (D ++ ids) L Hg Hi Hp ltac:(lia) Er' Hinv') as H.
+    rewrite drops_app, drops_lazy. perm_count.
+Qed.
+
 Lemma take_own st nx v k idx sk r D L :
   (k = TPop -> idx = 0) -> 1 <= nx ->
   sp_take c st nx v k idx sk = Some r ->
   Permutation (created c nx) (vis st ++ D ++ L) ->
   Permutation (created c (s_nx r))
     (vis (s_st r) ++ (D ++ drops (s_evs r)) ++
-     (L ++ match sk with
-           | KForget => match get_a v st with
-                        | Some a => skipn (match k with TPop => (length (a_xs a) - 1)%nat | _ => N.to_nat idx end) (a_xs a)
-                        | None => []
-                        end
-           | _ => []
+     (L ++ match get_a v st with
+           | Some a =>
+               match k with
+               | TPop => if (length (a_xs a) =? 0)%nat then [] else sink_leak c nx (a_xs a) (length (a_xs a) - 1) sk
+               | _ => if idx <? N.of_nat (length (a_xs a)) then sink_leak c nx (a_xs a) (N.to_nat idx) sk else []
+               end
+           | None => []
            end)).
 Proof.
   intros Hpop Hnx Hr Hinv. unfold sp_take in Hr.
   destruct (get_a v st) as [a|] eqn:Hg; [|discriminate]. cbv zeta in Hr.
   set (xs := a_xs a) in *.
-  assert (Hnone : forall r0 lk, (r0 = none_res st nx \/ r0 = panic_res PIndex [] st nx) -> lk = [] ->
-                  Permutation (created c (s_nx r0)) (vis (s_st r0) ++ (D ++ drops (s_evs r0)) ++ (L ++ lk))).
-  { intros r0 lk [-> | ->] ->; cbn [none_res panic_res s_nx s_st s_evs drops flat_map]; perm_count. }
+  assert (Hnone : forall r0, (r0 = none_res st nx \/ r0 = panic_res PIndex [] st nx) ->
+                  Permutation (created c (s_nx r0)) (vis (s_st r0) ++ (D ++ drops (s_evs r0)) ++ (L ++ []))).
+  { intros r0 [-> | ->]; cbn [none_res panic_res s_nx s_st s_evs drops flat_map]; perm_count. }
   destruct k.
   - destruct (Nat.eqb_spec (length xs) 0) as [Hz|Hnz].
-    + assert (Hx : xs = []) by (destruct xs; [reflexivity|discriminate]).
-      apply Hnone; [left; destruct sk; congruence|]. destruct sk; try reflexivity. rewrite Hx. reflexivity.
-    + pose proof (take_elem_own st nx v a TPop (length xs - 1) sk r D L Hg ltac:(unfold xs in *; lia) (fun _ => eq_refl) Hr Hinv) as H.
-      exact H.
+    + apply Hnone. left. congruence.
+    + exact (sink_own sk st nx v a TPop (length xs - 1) r D L Hg ltac:(unfold xs in *; lia) (fun _ => eq_refl) Hnx Hr Hinv).
   - destruct (N.ltb_spec idx (N.of_nat (length xs))) as [Hlt|Hge].
-    + exact (take_elem_own st nx v a TRemove (N.to_nat idx) sk r D L Hg ltac:(unfold xs in *; lia) ltac:(discriminate) Hr Hinv).
-    + apply Hnone; [right; destruct sk; congruence|]. destruct sk; try reflexivity.
-      apply skipn_all2. fold xs. lia.
+    + exact (sink_own sk st nx v a TRemove (N.to_nat idx) r D L Hg ltac:(unfold xs in *; lia) ltac:(discriminate) Hnx Hr Hinv).
+    + apply Hnone. right. congruence.
   - destruct (N.ltb_spec idx (N.of_nat (length xs))) as [Hlt|Hge].
-    + exact (take_elem_own st nx v a TSwapRemove (N.to_nat idx) sk r D L Hg ltac:(unfold xs in *; lia) ltac:(discriminate) Hr Hinv).
-    + apply Hnone; [right; destruct sk; congruence|]. destruct sk; try reflexivity.
-      apply skipn_all2. fold xs. lia.
+    + exact (sink_own sk st nx v a TSwapRemove (N.to_nat idx) r D L Hg ltac:(unfold xs in *; lia) ltac:(discriminate) Hnx Hr Hinv).
+    + apply Hnone. right. congruence.
 Qed.
 
 Lemma capacity_own st nx v want exact r D L :
@@ -385,8 +454,6 @@ Proof.
   induction ds as [|t ds IH]; [reflexivity|]. cbn [flat_map]. unfold drops in *. rewrite flat_map_app, IH.
   unfold drop_ev. rewrite Hdg. reflexivity.
 Qed.
-Lemma drops_app a b : drops (a ++ b) = drops a ++ drops b.
-Proof. unfold drops. apply flat_map_app. Qed.
 
 Lemma drain_own st nx v sb eb pat f r D L :
   sp_drain c st nx v sb eb pat f = Some r ->
@@ -605,9 +672,17 @@ Proof.
   destruct (sp_take c st nx src k sidx' sk) as [r0|] eqn:E0; [|discriminate]. injection Hr as <-.
   assert (Hp : k = TPop -> sidx' = 0) by (intros ->; reflexivity).
   pose proof (take_own st nx src k sidx' sk r0 D L Hp Hnx E0 Hinv) as H.
-  assert (Hl : match sk with KForget => match get_a src st with
-                 | Some a => skipn (match k with TPop => (length (a_xs a) - 1)%nat | _ => N.to_nat sidx' end) (a_xs a)
-                 | None => [] end | _ => [] end = []) by (unfold sk; destruct idx; reflexivity).
+  assert (Hl : match get_a src st with
+               | Some a =>
+                   match k with
+                   | TPop => if (length (a_xs a) =? 0)%nat then [] else sink_leak c nx (a_xs a) (length (a_xs a) - 1) sk
+                   | _ => if sidx' <? N.of_nat (length (a_xs a)) then sink_leak c nx (a_xs a) (N.to_nat sidx') sk else []
+                   end
+               | None => []
+               end = []).
+  { unfold sk. destruct (get_a src st) as [a0|]; [|reflexivity].
+    destruct k; destruct idx; cbn [sink_leak];
+      repeat match goal with |- context [if ?x then _ else _] => destruct x end; reflexivity. }
   rewrite Hl in H.
   destruct (N.eqb_spec (s_out r0) 1) as [Ho|Ho]; [|exact H].
   cbn [panic_res s_nx s_st s_evs drops flat_map]. perm_count.
@@ -648,13 +723,13 @@ Proof.
       * destruct a; [|discriminate]. exact (offer_temp_own st nx v (Some idx) vid k idx0 r D L Hnx Hr Hinv).
   - (* OPop *)
     pose proof (take_own st nx v TPop 0 k r D L (fun _ => eq_refl) Hnx Hr Hinv) as H.
-    cbn [leak_of]. destruct k; exact H.
+    cbn [leak_of]. exact H.
   - (* ORemove *)
     pose proof (take_own st nx v TRemove idx k r D L ltac:(discriminate) Hnx Hr Hinv) as H.
-    cbn [leak_of]. destruct k; exact H.
+    cbn [leak_of]. exact H.
   - (* OSwapRemove *)
     pose proof (take_own st nx v TSwapRemove idx k r D L ltac:(discriminate) Hnx Hr Hinv) as H.
-    cbn [leak_of]. destruct k; exact H.
+    cbn [leak_of]. exact H.
   - (* OClear *)
     destruct (get_a v st) as [av|] eqn:Hg; [|discriminate]. injection Hr as <-.
     pose proof (vis_get_any st v) as Hv. rewrite Hg in Hv. cbn [slot_xs] in Hv.
@@ -694,6 +769,18 @@ Proof.
     destruct (sp_take c st nx v k (match k with TPop => 0 | _ => idx end) KDrop) as [r0|] eqn:E0; [|discriminate].
     assert (Hp : k = TPop -> (match k with TPop => 0 | _ => idx end) = 0) by (intros ->; reflexivity).
     pose proof (take_own st nx v k _ KDrop r0 D L Hp Hnx E0 Hinv) as H.
+    assert (Hl : match get_a v st with
+                 | Some a =>
+                     match k with
+                     | TPop => if (length (a_xs a) =? 0)%nat then [] else sink_leak c nx (a_xs a) (length (a_xs a) - 1) KDrop
+                     | _ => if match k with TPop => 0 | _ => idx end <? N.of_nat (length (a_xs a))
+                            then sink_leak c nx (a_xs a) (N.to_nat match k with TPop => 0 | _ => idx end) KDrop else []
+                     end
+                 | None => []
+                 end = []).
+    { destruct (get_a v st) as [a0|]; [|reflexivity]. destruct k; cbn [sink_leak];
+        repeat match goal with |- context [if ?x then _ else _] => destruct x end; reflexivity. }
+    rewrite Hl in H.
     injection Hr as <-. cbn [leak_of].
     destruct (s_out r0 =? 0); cbn [s_nx s_st s_evs]; exact H.
   - (* OWrite *)
